@@ -543,16 +543,11 @@ class Opaque:
     __repr__ = __str__
 
 
-_locals_cache: dict[str, set[str]] = {}
-
-
 def local_names(fi: FunctionInfo) -> set[str]:
-    if fi.fq not in _locals_cache:
-        a = fi.node.args
-        out = {p.arg for p in [*a.posonlyargs, *a.args, *a.kwonlyargs]}
-        out |= {n.id for n in walk_scope(fi.node) if isinstance(n, ast.Name) and isinstance(n.ctx, ast.Store)}
-        _locals_cache[fi.fq] = out
-    return _locals_cache[fi.fq]
+    a = fi.node.args
+    out = {p.arg for p in [*a.posonlyargs, *a.args, *a.kwonlyargs]}
+    out |= {n.id for n in walk_scope(fi.node) if isinstance(n, ast.Name) and isinstance(n.ctx, ast.Store)}
+    return out
 
 
 def _reaches(cfg, a: ast.AST, b: ast.AST) -> bool:
